@@ -17,7 +17,8 @@ A source buffer is *valid* (`SrcOK`): UTF-16 units are 16-bit; UTF-8 input is we
   `inputEmpty_last_not_pending`;
 * `read_boundary`: `read` is the total width of a prefix of the buffer's characters (never inside a
   surrogate pair / UTF-8 sequence), and re-slicing the buffer there yields the remaining characters;
-* `written_le_cap`, `step_fits_need`;
+* `written_le_cap`, `step_fits_need`, `exists_admissible` (for every capacity there is an admissible
+  stop: the scheme "check `need` bytes before each step" never overflows);
 * `unmappable_last_item`, `unmappable_reports`, `unmappable_scalar`;
 * with replacement: `encRepl_res`, `encRepl_read_boundary`, `encRepl_read_le`,
   `encRepl_inputEmpty_consumed_all`, `encRepl_written_le_cap`, and the `*_all_encodings` forms.
@@ -155,6 +156,200 @@ theorem read_le_all_encodings (v : Gen.Variant) (utf16 : Bool) (s : (efamOfVaria
     (last : Bool) (budget : Budget) (hsrc : SrcOK utf16 src) :
     (ecall (efamOfVariant v) utf16 s src last budget).read ≤ src.length :=
   read_le_src _ utf16 s src last budget hsrc
+
+/-! ## the space checks suffice: for every capacity an admissible stop exists
+
+`written_le_cap` is a component of `EAdmissible`.  That admissibility is not an empty notion — that
+for EVERY capacity (also zero), state and source there is a stop policy whose call is admissible —
+is the statement that the implementation's scheme works: *check for `need` free bytes before every
+step, stop with `OutputFull` when they are not there*.  It needs exactly `step_fits_need`: a step
+never writes more than was checked. -/
+
+/-- `k` more steps of budget -/
+def addB : Budget → Nat → Budget
+  | .unlimited, _ => .unlimited
+  | .full n, k => .full (n + k)
+  | .altAny, _ => .altAny
+
+/-- number of steps the re-read loop takes for `c` when nothing stops it -/
+def charSteps (E : EFam) : Nat → E.σ → Nat → Nat
+  | 0, _, _ => 0
+  | fuel + 1, s, c =>
+    1 + (match (E.step s c).unmappable with
+         | some _ => 0
+         | none => if (E.step s c).unread then charSteps E fuel (E.step s c).st c else 0)
+
+def setBudget {σ} (b : Budget) : CharRes σ → CharRes σ
+  | .done st out _ => .done st out b
+  | r => r
+
+theorem addB_succ_isZero (b : Budget) (k : Nat) : (addB b (1 + k)).isZero = false := by
+  cases b with
+  | unlimited => rfl
+  | altAny => rfl
+  | full n => simp [addB, Budget.isZero]
+
+theorem addB_succ_dec (b : Budget) (k : Nat) : (addB b (1 + k)).dec = addB b k := by
+  cases b with
+  | unlimited => rfl
+  | altAny => rfl
+  | full n => simp only [addB, Budget.dec]; congr 1; omega
+
+theorem addB_zero (b : Budget) : addB b 0 = b := by cases b <;> rfl
+
+/-- with exactly as many extra steps of budget as the character takes, the character is processed as
+if nothing could stop it, and the original budget is what is left -/
+theorem processChar_shift (E : EFam) : ∀ (fuel : Nat) (s : E.σ) (c : Nat) (b : Budget) (acc : List Nat),
+    processChar E fuel s c (addB b (charSteps E fuel s c)) acc
+      = setBudget b (processChar E fuel s c .unlimited acc) := by
+  intro fuel
+  induction fuel with
+  | zero => intro s c b acc; simp [processChar, charSteps, setBudget, addB_zero]
+  | succ fuel ih =>
+    intro s c b acc
+    rw [charSteps]
+    generalize hk : (match (E.step s c).unmappable with
+      | some _ => 0
+      | none => if (E.step s c).unread then charSteps E fuel (E.step s c).st c else 0) = k
+    rw [processChar, processChar, addB_succ_isZero, addB_succ_dec]
+    simp only [Budget.isZero, Bool.false_eq_true, if_false, Budget.dec]
+    cases hu : (E.step s c).unmappable with
+    | some u => simp [setBudget]
+    | none =>
+      rw [hu] at hk
+      simp only at hk ⊢
+      cases hr : (E.step s c).unread with
+      | true =>
+        rw [hr] at hk
+        simp only [if_true] at hk ⊢
+        rw [← hk]
+        exact ih _ c b _
+      | false =>
+        rw [hr] at hk
+        simp only [Bool.false_eq_true, if_false] at hk ⊢
+        rw [← hk, addB_zero]
+        rfl
+
+/-- the unstopped result fits behind `used` bytes -/
+def FitsRes {σ} (cap used : Nat) : CharRes σ → Prop
+  | .done _ out _ => used + out.length ≤ cap
+  | .unmappable _ out _ => used + out.length ≤ cap
+  | .full _ _ _ => False
+
+/-- one character under the scheme "stop iff fewer than `need` bytes are free": either it stops
+somewhere in the re-read loop, justified and inside the capacity, or the whole character fits -/
+theorem processChar_exists (E : EFam) (hfit : ∀ s c, (E.step s c).out.length ≤ E.need s c) (cap used : Nat) :
+    ∀ (fuel : Nat) (s : E.σ) (c : Nat) (acc : List Nat), used + acc.length ≤ cap →
+      (∃ n st out need, processChar E fuel s c (.full n) acc = .full st out need
+          ∧ used + out.length ≤ cap ∧ cap < used + out.length + need)
+      ∨ FitsRes cap used (processChar E fuel s c .unlimited acc) := by
+  intro fuel
+  induction fuel with
+  | zero => intro s c acc h; right; simpa [processChar, FitsRes] using h
+  | succ fuel ih =>
+    intro s c acc h
+    by_cases hroom : used + acc.length + E.need s c ≤ cap
+    · have hs := hfit s c
+      cases hu : (E.step s c).unmappable with
+      | some u =>
+        right
+        rw [processChar]
+        simp only [Budget.isZero, Bool.false_eq_true, if_false, hu, FitsRes, List.length_append]
+        omega
+      | none =>
+        cases hr : (E.step s c).unread with
+        | true =>
+          rcases ih (E.step s c).st c (acc ++ (E.step s c).out) (by simp only [List.length_append]; omega) with
+            ⟨n, st, out, need, h1, h2, h3⟩ | h1
+          · left
+            refine ⟨n + 1, st, out, need, ?_, h2, h3⟩
+            rw [processChar]
+            simp only [Budget.isZero, Nat.add_one_ne_zero, beq_iff_eq, if_false, hu, hr, if_true, Budget.dec,
+              Nat.add_sub_cancel]
+            exact h1
+          · right
+            rw [processChar]
+            simp only [Budget.isZero, Bool.false_eq_true, if_false, hu, hr, if_true, Budget.dec]
+            exact h1
+        | false =>
+          right
+          rw [processChar]
+          simp only [Budget.isZero, Bool.false_eq_true, if_false, hu, hr, FitsRes, List.length_append]
+          omega
+    · left
+      refine ⟨0, s, acc, E.need s c, ?_, h, by omega⟩
+      rw [processChar]
+      simp [Budget.isZero]
+
+theorem erun_exists (E : EFam) (hfit : ∀ s c, (E.step s c).out.length ≤ E.need s c)
+    (hfitE : ∀ s, (E.eof s).1.length ≤ E.eofNeed s) (cap : Nat) (last : Bool) :
+    ∀ (items : List (Nat × Nat)) (s : E.σ) (used : Nat), used ≤ cap →
+      ∃ b, used + (erun E last s items b).out.length ≤ cap
+        ∧ ((erun E last s items b).res = .outputFull →
+            cap < used + (erun E last s items b).out.length + (erun E last s items b).stopNeed) := by
+  intro items
+  induction items with
+  | nil =>
+    intro s used h
+    cases last with
+    | false => exact ⟨.unlimited, by simpa [erun] using h, by simp [erun]⟩
+    | true =>
+      by_cases he : (E.eof s).1.isEmpty = true
+      · exact ⟨.unlimited, by simpa [erun, he] using h, by simp [erun, he]⟩
+      · by_cases hroom : used + E.eofNeed s ≤ cap
+        · refine ⟨.unlimited, ?_, ?_⟩
+          · have := hfitE s
+            simp only [erun, if_true, he, Budget.isZero, Bool.false_eq_true, if_false]
+            omega
+          · simp [erun, he, Budget.isZero]
+        · refine ⟨.full 0, ?_, ?_⟩
+          · simpa [erun, he, Budget.isZero] using h
+          · intro _
+            simp only [erun, if_true, he, Budget.isZero, beq_self_eq_true, Bool.false_eq_true, if_false,
+              List.length_nil]
+            omega
+  | cons it tl ih =>
+    intro s used h
+    obtain ⟨c, w⟩ := it
+    rcases processChar_exists E hfit cap used (E.rank s c + 1) s c [] (by simpa using h) with
+      ⟨n, st, out, need, h1, h2, h3⟩ | h1
+    · refine ⟨.full n, ?_, ?_⟩
+      · simp only [erun, h1]; exact h2
+      · intro _; simp only [erun, h1]; exact h3
+    · cases hpc : processChar E (E.rank s c + 1) s c .unlimited [] with
+      | full st out need => rw [hpc] at h1; exact h1.elim
+      | unmappable st out u =>
+        rw [hpc] at h1
+        refine ⟨.unlimited, ?_, ?_⟩
+        · simp only [erun, hpc]; exact h1
+        · simp [erun, hpc]
+      | done st out b' =>
+        rw [hpc] at h1
+        obtain ⟨b, hb1, hb2⟩ := ih st (used + out.length) h1
+        have hsh := processChar_shift E (E.rank s c + 1) s c b []
+        rw [hpc] at hsh
+        simp only [setBudget] at hsh
+        refine ⟨addB b (charSteps E (E.rank s c + 1) s c), ?_, ?_⟩
+        · simp only [erun, hsh, List.length_append]; omega
+        · intro hres
+          simp only [erun, hsh, List.length_append] at hres ⊢
+          have := hb2 hres
+          omega
+
+/-- **for every capacity an admissible raw call exists** (every family whose steps stay within the
+space they check — all variants: `exists_admissible_all_encodings`) -/
+theorem exists_admissible (E : EFam) (hfit : ∀ s c, (E.step s c).out.length ≤ E.need s c)
+    (hfitE : ∀ s, (E.eof s).1.length ≤ E.eofNeed s) (cap : Nat) (utf16 : Bool) (s : E.σ) (src : List Nat)
+    (last : Bool) : ∃ budget, EAdmissible E cap (ecall E utf16 s src last budget) := by
+  obtain ⟨b, h1, h2⟩ := erun_exists E hfit hfitE cap last (itemsOfSrc utf16 src) s 0 (Nat.zero_le _)
+  refine ⟨b, ?_, ?_⟩
+  · rw [ecall_eq]; omega
+  · intro hres; rw [ecall_eq] at hres ⊢; have := h2 hres; omega
+
+theorem exists_admissible_all_encodings (v : Gen.Variant) (cap : Nat) (utf16 : Bool) (s : (efamOfVariant v).σ)
+    (src : List Nat) (last : Bool) :
+    ∃ budget, EAdmissible (efamOfVariant v) cap (ecall (efamOfVariant v) utf16 s src last budget) :=
+  exists_admissible _ (Lemmas.EncFam.estep_out_le_need v) (Lemmas.EncFam.eeof_out_le_need v) cap utf16 s src last
 
 /-! ## with replacement (`Encoder::encode_from_utf8` / `encode_from_utf16`) -/
 
